@@ -11,6 +11,7 @@
     reg,<name>,<face>,<origin>,<cost>,<flags>  unreg,<name>,<face>,<origin>  cleanup,<face>
     fins,<name>,<face>,<cost>  frem,<name>,<face>   (direct FIB commands, on prefixes below /f only)
     sets,<name>,<strategy>  unsets,<name>  nh,<name>  st,<name>  lf  lr  ls
+    adv   (the real NLSR readvertiser: name=count;… reg=<register commands sent> unreg=<unregister commands sent>)
   id = 100*goroutine + position.  inv/ret are ticks of one global atomic counter.
 -/
 import NdnVerif.Driver.Common
@@ -42,6 +43,7 @@ def parseOp (s : String) : Option SOp :=
   | ["lf"] => some .lf
   | ["lr"] => some .lr
   | ["ls"] => some .ls
+  | ["adv"] => some .adv
   | _ => none
 
 def isWrite : SOp → Bool
@@ -83,7 +85,8 @@ def crashSpec (got : String) : List SpecFail :=
   else []
 
 def step16 (d : D16) (op : String) (got : String) : StepResult D16 :=
-  if op.startsWith "new " then
+  if got == "skip" then { st := { cands := [] }, cov := ["skipped-after-deadlock"] }   -- the harness process is wedged (reported before)
+  else if op.startsWith "new " then
     match op.splitOn " " with
     | ["new", _kind, dflt] =>
       match Name.ofText dflt with
@@ -144,17 +147,41 @@ def step16 (d : D16) (op : String) (got : String) : StepResult D16 :=
     | some o =>
       if isCrash got then { st := d, spec := crashSpec got }
       else
+        -- `adv`: "<counts> reg=R unreg=U | <commands in the order they were queued>"; the first part is compared
+        -- with the model, the command sequence (not determined by the model under concurrency) is judged by the
+        -- specification: NLSR's view after these commands = the prefixes with a positive advertised count
+        let gotFull := got
+        let got := match o with | .adv => (got.splitOn " | ").headD got | _ => got
+        let viewFails : List SpecFail := match o with
+          | .adv =>
+            let seq := (((gotFull.splitOn " | ").getD 1 "").splitOn " ").filter (· != "")
+            let log : List (Bool × Name) := seq.filterMap fun t =>
+              match Name.ofText ((t.drop 2).toString) with
+              | some n => some (t.startsWith "r:", n)
+              | none => none
+            let counts : List (Name × Int) := (((got.splitOn " ").headD "").splitOn ";").filterMap fun e =>
+              match e.splitOn "=" with
+              | [n, c] => match Name.ofText n, c.toInt? with
+                | some n, some c => some (n, c)
+                | _, _ => none
+              | _ => none
+            let names := (log.map (·.2) ++ counts.map (·.1)).eraseDups
+            let bad := names.filter fun n => viewOf log n != decide (((counts.find? (·.1 == n)).map (·.2)).getD 0 > 0)
+            if bad.isEmpty then [] else
+              [⟨"nlsr-view", "adv", s!"after the commands the readvertiser sent, NLSR's view of {bad.map Name.toText} differs from the advertised counts: {gotFull}"⟩]
+          | _ => []
         let results := d.cands.map fun s => s.apply o
         let ok := results.filter fun r => r.2 == got
         match results with
         | [] => { st := d, cov := ["after-failed-par"] }   -- the block before was not linearizable: nothing to compare with
-        | [r] => { st := { cands := [r.1] }, expected := some r.2, cov := ["seq-op"],
-                   spec := if r.2 != got && !isWrite o then
+        | [r] => { st := { cands := [r.1] }, expected := (match o with | .adv => none | _ => some r.2),
+                   cov := ["seq-op"] ++ (match o with | .adv => ["readvertiser"] | _ => []),
+                   spec := viewFails ++ if r.2 != got && !isWrite o then
                      [⟨"sequential-result", "seq", s!"{op}: tables return {got}, the registered routes prescribe {r.2}"⟩] else [] }
         | _ =>
           if ok.isEmpty then
             { st := d, cov := ["final-state-mismatch"],
-              spec := [⟨"final-state", "after-par", s!"{op} returned {got}: not the result in any state reachable by a sequential order of the concurrent operations"⟩] }
-          else { st := { cands := ok.map (·.1) }, cov := ["final-state-filter"] }
+              spec := viewFails ++ [⟨"final-state", "after-par", s!"{op} returned {got}: not the result in any state reachable by a sequential order of the concurrent operations"⟩] }
+          else { st := { cands := ok.map (·.1) }, cov := ["final-state-filter"], spec := viewFails }
 
 def main : IO Unit := Ndn.Driver.run ({} : D16) step16
